@@ -1,8 +1,193 @@
-import FalconProofs.C08.Inv
+/-
+  FalconProofs.Props.C08 — property C08: a paged memory behaves as a byte array layered over its
+  optional backing.  Model and specification: FalconModel/Paged.lean (mirror of lib/memory/paged.rs and
+  value.rs for V = il::Constant; byte array `Nat → Option UInt8` with endian `read`/`write`).
+
+  Reading guide.
+    * `Inv m`   the representation invariant of the cell map (FalconProofs/C08/Inv.lean)
+    * `abs m`   the byte array a memory denotes (stored bytes, falling back to the backing's)
+    * `Good v`  what `store` accepts: width a positive multiple of 8, value reduced (`val < 2^bits`, which
+                every falcon constructor guarantees), width below 2^63 (a `usize`, with room for the
+                `bits + offset` additions of `load`)
+    * `U64 = 2^64`; ranges must end at or below it (the harness build panics on `u64` overflow, the model
+      says `Res.panic` there; since the repair a store may end exactly at 2^64)
+  All statements are for every memory satisfying the invariant / every history from `new` or
+  `new_with_backing`, every address, width, value, endianness and backing.
+
+  What is NOT proved here (and said so in MANIFEST): copy-on-write sharing between clones — in the model a
+  clone is the same persistent value, so `clone_independent` below is a statement about the model only;
+  the `RC::make_mut` behaviour is covered by the correspondence check (interleaved histories over several
+  handles).  V = il::Expression is covered by the correspondence only (`mode E` histories).
+-/
+import FalconProofs.C08.History
+
 namespace Falcon.C08
 open Falcon Falcon.Paged
 
+/-- a store of an accepted value succeeds, and keeps the invariant -/
+theorem store_inv {m : Mem} (I : Inv m) (a : Nat) (v : Const) (g : Good v) (hfit : a + v.bits / 8 ≤ U64) :
+    ∃ m', store m a v = .ok m' ∧ Inv m' := by
+  obtain ⟨m', h, I', _⟩ := store_spec I a v g hfit
+  exact ⟨m', h, I'⟩
+
+/-- … and the byte array afterwards is the byte array before with the value's bytes written at `a` (every
+    overlap pattern: values cut before, after, on both sides, several values, page crossings) -/
+theorem store_abs {m m' : Mem} (I : Inv m) (a : Nat) (v : Const) (g : Good v) (hfit : a + v.bits / 8 ≤ U64)
+    (h : store m a v = .ok m') :
+    abs m' = write (abs m) a (bytesOf m.endian v) ∧ m'.endian = m.endian ∧ m'.backing = m.backing := by
+  obtain ⟨m'', h', _, habs, he, hb⟩ := store_spec I a v g hfit
+  rw [h] at h'
+  simp only [Res.ok.injEq] at h'
+  subst h'
+  exact ⟨habs, he, hb⟩
+
+/-- a load of any positive multiple of 8 bits returns exactly the bytes of the byte array, assembled in
+    the memory's endianness; `none` iff some byte is absent (that is what `read` says); never an error -/
+theorem load_spec {m : Mem} (I : Inv m) (a n : Nat) (h8 : n % 8 = 0) (hpos : 0 < n) (hs : n < 2 ^ 63)
+    (hfit : a + n / 8 ≤ U64) :
+    load m a n = .ok (read (abs m) a (n / 8) m.endian) :=
+  Paged.load_spec I a n h8 hpos hs hfit
+
+/-- `read` is absent exactly when some byte of the range is absent -/
+theorem read_none_iff (b : Bytes) (a n : Nat) (e : Endian) :
+    read b a n e = none ↔ ∃ i, i < n ∧ b (a + i) = none := by
+  simp only [Paged.read, Option.map_eq_none_iff]
+  induction n generalizing a with
+  | zero => simp [readBytes]
+  | succ n ih =>
+    simp only [readBytes]
+    constructor
+    · intro h
+      cases hb : b a with
+      | none => exact ⟨0, by omega, by simpa using hb⟩
+      | some x =>
+        cases hr : readBytes b (a + 1) n with
+        | none =>
+          obtain ⟨i, hi, hbi⟩ := (ih (a + 1)).1 hr
+          exact ⟨i + 1, by omega, by rw [← hbi]; congr 1; omega⟩
+        | some t => simp [hb, hr] at h
+    · rintro ⟨i, hi, hbi⟩
+      cases hb : b a with
+      | none => rfl
+      | some x =>
+        have hi0 : i ≠ 0 := by intro h0; subst h0; simp [hb] at hbi
+        have : readBytes b (a + 1) n = none :=
+          (ih (a + 1)).2 ⟨i - 1, by omega, by rw [← hbi]; congr 1; omega⟩
+        simp [this]
+
+/-- the bytes of a value and the value of bytes are inverse: a load of exactly a stored value returns it -/
 theorem fromBytes_bytesOf (e : Endian) (c : Const) (h8 : c.bits % 8 = 0) (wf : c.val < 2 ^ c.bits) :
     fromBytes e (bytesOf e c) = c := Paged.fromBytes_bytesOf e c h8 wf
+
+/-- widths that are not positive multiples of 8 are rejected (and the memory, being a value, is unchanged) -/
+theorem store_non8 (m : Mem) (a : Nat) (v : Const) (h : ¬ (v.bits % 8 = 0 ∧ 0 < v.bits)) :
+    store m a v = .err .other := store_non8' m a v h
+
+/-- the invariant holds initially -/
+theorem inv_init (e : Endian) (b : Option Backing) :
+    Inv (match b with | some b => newWithBacking e b | none => new e) := by
+  cases b with
+  | none => exact inv_new e
+  | some b => exact inv_newWithBacking e b
+
+/-- HISTORY: for every finite sequence of store / load / set_permissions operations (in the property's
+    domain, see `Op.inDomain`) applied to any memory satisfying the invariant, the model answers exactly
+    what the byte array answers: every load returns the bytes most recently stored at each address,
+    falling back to the initial bytes. -/
+theorem history_from (m : Mem) (I : Inv m) (ops : List Op) (hdom : ∀ op ∈ ops, op.inDomain) :
+    runModel m ops = runSpec m.endian (abs m) ops := history_gen ops m I hdom
+
+/-- … in particular from `Memory::new`: the byte array starts empty -/
+theorem history (e : Endian) (ops : List Op) (hdom : ∀ op ∈ ops, op.inDomain) :
+    runModel (new e) ops = runSpec e (fun _ => none) ops :=
+  history_gen ops (new e) (inv_new e) hdom
+
+/-- … and from `Memory::new_with_backing`: the byte array starts as the backing's bytes -/
+theorem history_backed (e : Endian) (b : Backing) (ops : List Op) (hdom : ∀ op ∈ ops, op.inDomain) :
+    runModel (newWithBacking e b) ops = runSpec e b.get8 ops :=
+  history_gen ops (newWithBacking e b) (inv_newWithBacking e b) hdom
+
+/-- clones are independent IN THE MODEL (a clone is the same value): whatever is done through one handle,
+    a history run through the other answers as if nothing had happened.  Says nothing about
+    `RC::make_mut`; see the header. -/
+theorem clone_independent (m : Mem) (I : Inv m) (ops₁ ops₂ : List Op) (h₂ : ∀ op ∈ ops₂, op.inDomain) :
+    let clone := m
+    let _afterOps₁ := runModel m ops₁
+    runModel clone ops₂ = runSpec m.endian (abs m) ops₂ := history_gen ops₂ m I h₂
+
+/-- equality implies identical results for every load (any address, any width, valid or not) -/
+theorem eq_load {m₁ m₂ : Mem} (h : eq m₁ m₂ = true) (a n : Nat) : load m₁ a n = load m₂ a n :=
+  eq_load' h a n
+
+/-- … and identical reported permissions -/
+theorem eq_perm {m₁ m₂ : Mem} (h : eq m₁ m₂ = true) (a : Nat) : permissions m₁ a = permissions m₂ a :=
+  eq_permissions h a
+
+/-- equality is reflexive: a memory equals its unmodified clone (backed or not) -/
+theorem eq_refl (m : Mem) : eq m m = true := eq_refl' m
+
+/-- permissions set on a range are reported for every address in it -/
+theorem perm_set (m : Mem) (a len p x : Nat) (h1 : a ≤ x) (h2 : x < a + len) (h3 : a + len ≤ U64) :
+    permissions (setPermissions m a len p) x = some p := perm_set' m a len p x h1 h2 h3
+
+/-- an address on a page the range does not touch keeps its reported permissions -/
+theorem perm_other (m : Mem) (a len p x : Nat) (h : pageOf x < pageOf a ∨ a + len ≤ pageOf x) :
+    permissions (setPermissions m a len p) x = permissions m x := perm_other' m a len p x h
+
+/-- stores never change reported permissions (whether they succeed, create pages, or not) -/
+theorem perm_store_frame {m m' : Mem} {a : Nat} {v : Const} (h : store m a v = .ok m') (x : Nat) :
+    permissions m' x = permissions m x := store_permissions h x
+
+/-- addresses whose permissions were never set report the backing's: initially … -/
+theorem perm_default (e : Endian) (b : Backing) (x : Nat) :
+    permissions (newWithBacking e b) x = b.permissions x ∧ permissions (new e) x = none := ⟨rfl, rfl⟩
+
+/-- … and along any history, for an address whose page no `set_permissions` range touched
+    (page granularity: `set_permissions` is documented as setting permissions per page) -/
+theorem perm_default_history : ∀ (ops : List Op) (m : Mem) (x : Nat),
+    (∀ a len p, Op.setPerm a len p ∈ ops → pageOf x < pageOf a ∨ a + len ≤ pageOf x) →
+    ∀ m', (ops.foldl (fun (m : Mem) op =>
+        match op with
+        | .store a v => (match store m a v with | .ok m' => m' | _ => m)
+        | .load _ _ => m
+        | .setPerm a len p => setPermissions m a len p) m) = m' →
+      permissions m' x = permissions m x := by
+  intro ops
+  induction ops with
+  | nil => intro m x _ m' h; simp only [List.foldl_nil] at h; rw [h]
+  | cons op t ih =>
+    intro m x hun m' h
+    simp only [List.foldl_cons] at h
+    have ht : ∀ a len p, Op.setPerm a len p ∈ t → pageOf x < pageOf a ∨ a + len ≤ pageOf x :=
+      fun a len p hm => hun a len p (List.mem_cons_of_mem _ hm)
+    rw [ih _ x ht m' h]
+    cases op with
+    | store a v =>
+      simp only []
+      cases hs : store m a v with
+      | ok m'' => exact store_permissions hs x
+      | err _ => rfl
+      | panic => rfl
+    | load _ _ => rfl
+    | setPerm a len p => exact perm_other' m a len p x (hun a len p (List.mem_cons_self ..))
+
+/-! ### non-vacuity: concrete instances meet the hypotheses and exercise the interesting paths -/
+
+/-- a big-endian history that cuts a 32-bit value on both sides and reads across the cut -/
+example :
+    runModel (new .big)
+      [.store 0x3fe ⟨32, 0xAABBCCDD⟩, .store 0x3ff ⟨16, 0x1122⟩, .load 0x3fe 32, .load 0x3fd 16, .load 0x400 8] =
+    [.stored, .stored, .loaded (some ⟨32, 0xAA1122DD⟩), .loaded none, .loaded (some ⟨8, 0x22⟩)] := by
+  decide
+
+example : ∀ op ∈ [Op.store 0x3fe ⟨32, 0xAABBCCDD⟩, .store 0x3ff ⟨16, 0x1122⟩, .load 0x3fe 32], op.inDomain := by
+  intro op h
+  simp only [List.mem_cons, List.mem_nil_iff, or_false] at h
+  rcases h with rfl | rfl | rfl <;> simp [Op.inDomain, U64_eq]
+
+example : Good ⟨32, 0xAABBCCDD⟩ := ⟨by decide, by decide, by decide, by decide⟩
+
+/-- permissions above page 0 (the case that used to set nothing) -/
+example : permissions (setPermissions (new .little) 0x2000 0x10 3) 0x2005 = some 3 := by decide
 
 end Falcon.C08
